@@ -1260,8 +1260,12 @@ def audit(out: OutputBuffer, aconf: AuditConf, sshv: Optional[int] = None, print
                       'instead received unknown message ({2})'
                 err = fmt.format(err_pair[0], err_pair[1], packet_type)
     if err is not None:
-        output(out, aconf, banner, header)
-        out.fail(err)
+        if aconf.json:
+            # One JSON document, no algorithm fields: the handshake did not get far enough to learn any.
+            out.info(json.dumps({'target': '%s:%d' % (aconf.host, aconf.port), 'error': err}, sort_keys=True))
+        else:
+            output(out, aconf, banner, header)
+            out.fail(err)
         return exitcodes.CONNECTION_ERROR
     if sshv == 1:
         try:
